@@ -5,6 +5,7 @@ import tlsref
 import scenario
 
 BIG = 16384
+_BY_VER, _BY_VER_KEEP = {}, []
 
 SEED = st.integers(0, 2 ** 32 - 1)
 
@@ -38,7 +39,7 @@ def endpoints(draw, idx=None, sports=(443,), v6=None):
 
 
 @st.composite
-def tcp_delivery(draw, modes=("rec", "flight", "cuts", "cuts", "bytes"), wrap=True, dups=False, moves=False, small=False):
+def tcp_delivery(draw, modes=("rec", "rec", "flight", "flight", "cuts", "cuts", "cuts", "cuts", "cuts", "bytes"), wrap=True, dups=False, moves=False, small=False):
     mode = draw(st.sampled_from(list(modes)))
     t = {"mode": mode, "mss": draw(st.sampled_from([1400, 1400, 536, 100, 9000, 16500])), "syn": draw(st.booleans()),
          "acks": draw(st.booleans())}
@@ -69,9 +70,13 @@ def tls_conn(draw, combos=None, max_records=12, max_len=2000, delivery=None, ep=
     suites = tlsref.load_suites()
     combos = combos or tlsref.all_combos()
     # version first (uniform), then a suite valid for it: the table has 5 TLS 1.3 entries among ~700 combinations
-    by_ver = {}
-    for c in combos:
-        by_ver.setdefault(c[1], []).append(c)
+    by_ver = _BY_VER.get(id(combos))
+    if by_ver is None:
+        by_ver = {}
+        for c in combos:
+            by_ver.setdefault(c[1], []).append(c)
+        _BY_VER[id(combos)] = by_ver
+        _BY_VER_KEEP.append(combos)
     ver = draw(st.sampled_from(sorted(by_ver)))
     code, ver, etm = draw(st.sampled_from(by_ver[ver]))
     s = suites[code]
@@ -104,7 +109,7 @@ def tls_conn(draw, combos=None, max_records=12, max_len=2000, delivery=None, ep=
     spec["history"] = hist
     spec["ep"] = draw(ep if ep is not None else endpoints())
     t = draw(delivery if delivery is not None else tcp_delivery())
-    total = sum(ln for _, ln, _ in hist)
+    total = sum(ln for _, ln, _ in hist) + spec.get("cert_len", 300) + 400          # every byte of the stream becomes a packet
     if t["mode"] == "bytes" and total > bytes_mode_limit:
         t["mode"] = "cuts"
         t.setdefault("cuts", [[1, 2, 3], [5, 6]])
